@@ -358,9 +358,10 @@ ICmpNum(op, x, y) ==
          [] op = "<=" -> (IF dk <= 9 THEN "T" ELSE IF dk >= 12 THEN "F" ELSE "U")
          [] op = ">=" -> (IF dk >= -9 THEN "T" ELSE IF dk <= -12 THEN "F" ELSE "U")
          \* strict comparisons: nothing is said about values that are equal within the tolerance
-         [] op = "<"  -> (IF dk <= -12 THEN "T" ELSE IF dk >= 12 THEN "F"
+         \* (x < y is false under both readings as soon as x is the larger one)
+         [] op = "<"  -> (IF dk <= -12 THEN "T" ELSE IF dk >= 1 THEN "F"
                           ELSE IF dk = 0 /\ x.u = y.u THEN "F" ELSE "U")
-         [] op = ">"  -> (IF dk >= 12 THEN "T" ELSE IF dk <= -12 THEN "F"
+         [] op = ">"  -> (IF dk >= 12 THEN "T" ELSE IF dk <= -1 THEN "F"
                           ELSE IF dk = 0 /\ x.u = y.u THEN "F" ELSE "U")
 Tri(r) == IF r = "U" THEN LSt("unspec") ELSE LBool(r = "T")
 
@@ -543,6 +544,7 @@ MCmpNum(op, x, y) ==
            mag == MagIn(lit, nod.u)
        IN IF ConvFails(lit.u, nod.u) THEN MErr({})
           ELSE IF nod.kind = "inode" /\ ~conv /\ lit.ft THEN MErr({"inode_vs_float_text"})   \* int('2.0')
+          ELSE IF nod.kind = "inode" /\ conv /\ lit.k # 0 THEN MR("U", ResType(op), {})   \* int() of a value next to an integer
           ELSE IF nod.kind = "inode" /\ conv /\ ~QIsInteger(mag) THEN
                \* int(2.5) = 2 : compared after truncation
                MR("U", ResType(op), {"inode_vs_fraction"})
